@@ -9,7 +9,7 @@ python3 tools/benign_edits.py $D || { rm -rf $D; exit 2; }
 V=$(mktemp -d); cp known_findings.json $V/; mkdir $V/evidence
 bad=0
 for ID in $(python3 -c "import json;print(' '.join(c['property_id'] for c in json.load(open('MANIFEST.json'))['checks']))"); do
-  out=$(bin/adcheck -property $ID -repo $D -verif $V 2>&1); rc=$?
+  out=$(${ADCHECK:-bin/adcheck} -property $ID -repo $D -verif $V 2>&1); rc=$?
   [ $rc -ne 0 ] && { bad=1; echo "$ID rc=$rc $(echo "$out" | grep '^VIOLATED\|^UNDECIDED\|^FATAL' | head -3 | cut -c1-260)"; }
 done
 rm -rf $D $V
